@@ -411,6 +411,10 @@ def check_zeroize(rep, fb_all):
 def self_wiping(cr, ft, drops):
     """ADT (or every ADT an associated type is bound to) with a Drop that zeroizes all its state fields."""
     cands = []
+    if ft["k"] == "adt" and not ft.get("local") and ft["adt"].split("::")[-2:] == ["zeroize", "Zeroizing"]:
+        # the dependency's wrapper whose documented contract (and only purpose) is to zeroize its
+        # content in its own Drop
+        return "zeroize::Zeroizing"
     if ft["k"] == "adt" and ft.get("local"):
         cands = [ft["adt"]]
     elif ft["k"] == "alias":
